@@ -28,6 +28,16 @@ func (db *DB) newReader(ctx context.Context, ptr pointer) (*Reader, error) {
 	if err != nil {
 		return nil, err
 	}
+	// The caller's pointer may predate a garbage collection pass that compacted the file
+	// and re-based its pointers. Now that a handle on the file exists (which keeps GC
+	// away from it), take the offset the index currently holds for this domain.
+	db.idx.read(func() {
+		if i, exact := db.idx.unprotectedSearch(ptr.Start.SpanRange(0)); exact {
+			if cur := db.idx.mu.pointers[i]; cur.fileKey == ptr.fileKey && cur.TimeRange == ptr.TimeRange && cur.size == ptr.size {
+				ptr.offset = cur.offset
+			}
+		}
+	})
 	reader := io.NewSectionReaderAtCloser(internal, int64(ptr.offset), int64(ptr.size))
 	return &Reader{ptr: ptr, ReaderAtCloser: reader}, nil
 }
